@@ -214,8 +214,9 @@ def validate_models(H, cfgs, L, report):
                 obs.append((outcome, [(l, to_py(v)) for l, v in ctx.observations]))
             n += 1
             (o1, a), (o2, b) = obs
-            if o2.startswith("violation:") and (not o1.startswith("violation:") or getattr(H, "REAL_FIXTURE_VIOLATIONS", False)):
-                # the REAL code violates the property on this concrete fixture (the modelled run does not):
+            if o2.startswith("violation:"):
+                # the REAL code violates the property on this concrete fixture (whatever the modelled run says - floating-point
+                # effects are invisible to the solver's real arithmetic and may differ between numpy and the model):
                 # a replay-confirmed violation in its own right
                 report.append(dict(label=o2[len("violation:"):], key="fixture: " + o2[len("violation:"):], cfg=cfg,
                                    model={k: E._js(v) for k, v in values.items()}, detail="violated by the real code on a concrete fixture input", confirmed=True, notes=[]))
